@@ -24,13 +24,22 @@ def run_shuffle(X, Y, Z, obs, alpha, n, rng_arg, est_fn, information="gaussian",
 
     shim = NpShim()
     saved = (D.np, D.conditional_mutual_information)
+    from common import SeamBypassed, alias_patches
+    aliases = alias_patches(D, [(np.random.default_rng, shim.random.default_rng), (np.random, shim.random)])      # the same objects under other names
+    saved_alias = {k_: getattr(D, k_) for k_ in aliases}
     D.np, D.conditional_mutual_information = shim, spy
+    for k_, v_ in aliases.items():
+        setattr(D, k_, v_)
     try:
         with quiet():
             _FORM[0] += 1      # every documented call form, in turn
             res = call_form(D.shuffle_test, "shuffle_test", _FORM[0], X=X, Y=Y, Z=Z, observed_cmi=obs, alpha=alpha, n_shuffles=n, rng=rng_arg, information=information, **kw)
     finally:
         D.np, D.conditional_mutual_information = saved
+        for k_, v_ in saved_alias.items():
+            setattr(D, k_, v_)
+    if not shim.seeds and not isinstance(rng_arg, np.random.Generator) and n > 0:
+        raise SeamBypassed("shuffle_test ran but no generator creation was observed through the discovery module's NumPy names")
     perms = [p for k, p in shim.log if k == "permutation"]
     other = [k for k, p in shim.log if k != "permutation"]
     return res, calls, perms, other
